@@ -876,7 +876,7 @@ func RedeemGuard(p *core.Prog, r *core.Report) {
 		})
 	}
 	r.Count("redeem_result_sites", n)
-	r.Floor("redeem_result_sites", 25)
+	r.Floor("redeem_result_sites", 20)
 	// the other direction, at the API boundary: the result an exported Validate method of an exported validator
 	// hands to its caller comes out of the pool only when result recycling is on (an unexported option that only
 	// the one-shot entry point sets, which releases the result itself). Taken from the pool on the other side of
@@ -916,7 +916,7 @@ func RedeemGuard(p *core.Prog, r *core.Report) {
 		})
 	}
 	r.Count("api_result_mode_sites", nMode)
-	r.Floor("api_result_mode_sites", 3)
+	r.Floor("api_result_mode_sites", 2)
 }
 
 // definitelyPooled: v is (a cell holding) the result of X.Validate where X was built in this activation (or the
